@@ -8,6 +8,9 @@ CHECKS = {
  "C01": dict(engine="E1", technique="exhaustive enumeration of selector pairs x probe configurations on a small recording, plus all 65536 sample values per gain class",
              text="63 configurations (8 probe kinds + nidq, both metadata encodings, sorted/unsorted, bin/cbin, AP/LF, non-identity site order, non-uniform gains) x every int / slice (start, stop in [-n-1, n+1], steps +-1..3) / list selector pair of a 4-sample recording are read through the real Reader and compared with NumPy indexing of the reference calibrated, permuted array; thorough runs the full product (98M reads), quick the full x core and core x full products on primary configurations.",
              note="layout decided with one separating content (the gather does not branch on values); values decided by running all 65536 int16 values through every gain class; 1.5 float32 ulp tolerance", ref="3/C01"),
+ "C05": dict(engine="E1", technique="exhaustive enumeration of the sinusoid basis x ADC tables, pulse x table x filter grids, every (2nd) spike depth, all 3^6 groupings",
+             text="The ADC alignment is run on every below-Nyquist DFT bin x 2 phases x 4 ADC tables (basis of a linear operator); destripe/destripe_lfp on 8 (4) disjoint band-limited pulses x 2 amplitudes x 4 tables x k-filter/CAR must attenuate by >= 40 dB; a model spike at every 2nd (thorough: every) depth x NP1/NP2 x both filters must keep >= 90 %; outside-brain rows must be untouched and must not influence inside rows for top blocks 0..40; car leaves zero median/mean per group for all 3^6 groupings; kfilt/fk/car with collections equal each group alone with the same settings; agc data x gain = input.",
+             note="spike/label backgrounds are fixed seeded content; stripes periodic in the window with a centred envelope", ref="3/C05"),
  "C07": dict(engine="E1", technique="exhaustive enumeration of lengths x all integer shifts on the full impulse basis; fractional shifts on the below-Nyquist sinusoid basis",
              text="For every length 2..300 (thorough: plus primes, powers of 2 and 3 and neighbours up to 2048) and both dtypes, every integer shift in (-n, n) is applied to the identity matrix and compared with the circular roll; axes of 2-D/3-D arrays, per-trace shifts, additivity pairs, fractional delays of every below-Nyquist cos/sin bin, spectrum input, input immutability, shape and dtype are checked. Delay estimation is checked on a 0.05 grid of shifts in [-5,5] for the model spike and band-limited packets, shift_waveform on clusters, parabolic_max on all 3-point patterns.",
              note="linearity in the signal lets the impulse basis decide all signals; delay-estimation waveforms are a fixed family sampled >= 10 times per cycle", ref="3/C07"),
@@ -36,6 +39,9 @@ CHECKS = {
  "C14": dict(engine="E1", technique="exhaustive enumeration of all waveforms of length 6-7 (8) over 5-value alphabets (1 channel) and 3-value alphabets (2-3 channels)",
              text="Every admissible waveform (largest deflection not on the first sample) of length 6 and 7 over {-3,-1,0,1,2} and {-2,-1,0,1,3}, and every 2-channel waveform of length 5 over {-2,0,1}, is run through the real compute_spike_features in one batch, reordered batches, scaled batches, channel-permuted batches and singleton batches; each row is compared with a tie-tolerant per-waveform reference (extremum/swap, ordering, half-peak points, recovery fallback). A realistic family (model spike, both polarities, noise, NaN channels, extrema on the last samples, lengths 10-200, 1-40 channels) is added.",
              note="value alphabets are small; ties accepted in any consistent way; realistic family is fixed seeded content", ref="3/C14"),
+ "C15": dict(engine="E1", technique="exhaustive enumeration of label vectors / bad-channel clusters and of every fault position and top-block size",
+             text="interpolate_bad_channels on all 4^6 label vectors of the first six sites and on every <=3-subset x {dead,noisy} labelling of the first/last 12 sites of NP1/NP2/NP2.4 geometries with constant, ramp and seeded data (bad rows carry absurd values): non-bad rows bit-identical, repaired rows inside the range of the nearby non-bad rows, zeros without neighbours. detect_bad_channels on a coherent background with a silent / noisy channel at every position 0..383 and a top block of every size 0..40: exactly the injected labels. detect_bad_channels_cbin = per-channel mode over batches on bin and cbin files.",
+             note="detection background is a fixed seeded recipe; silent channel at the last index accepted as dead or outside; open known finding for a silent channel at index 0", ref="3/C15"),
  "C16": dict(engine="E1", technique="exhaustive enumeration of (channel count, count over threshold) x boundary placements, and of all flag patterns up to a length bound",
              text="For every nc in 1..40 and 100/384/400 and every count k=0..nc of channels one ulp below/at/above 98% of range (and just below/above the slew limit) the flags are compared with an exact Fraction comparison; every 0/1 flag pattern of length <=12 (14) x 10 taper widths is realised by four different recordings and the mute gain is checked for range, zeros on flags, ones beyond the half-width and dependence on the flags only.",
              note="exactly-at-the-slew-limit is not asserted (statement 'exceed' vs code '>='); proportions are simple rationals", ref="3/C16"),
